@@ -427,6 +427,16 @@ func (m *streeModel) ruleNavTable(c *Ctx, rows [][3]string) {
 				}
 			}
 		}
+		if fn == nil && recv == "node" && fname != "" {
+			// a private walker folded into the exported method that used it: the walk is in that method's closure
+			if tm := P.Func("stree", "Tree", strings.ToUpper(fname[:1])+fname[1:]); tm != nil {
+				for _, cl := range withClosures(tm) {
+					if len(m.childAccesses(cl)) > 0 {
+						fn = cl
+					}
+				}
+			}
+		}
 		if fn == nil {
 			c.undecided("ANCHOR", "stree."+fname, 0, "not found")
 			continue
@@ -447,6 +457,18 @@ func (m *streeModel) ruleNavTable(c *Ctx, rows [][3]string) {
 					}
 				}
 			})
+			if len(hs) == 0 {
+				// … or in a method of the package it calls (t.Root().Min().Key()): the one callee that walks
+				seenH := map[*ssa.Function]bool{}
+				allInstrs(fn, func(in ssa.Instruction) {
+					if ci, ok := in.(ssa.CallInstruction); ok {
+						if cal := staticCallee(ci.Common()); cal != nil && cal.Blocks != nil && cal.Pkg == origin(fn).Pkg && !seenH[cal] && len(m.loadSig(cal)) > 0 {
+							seenH[cal] = true
+							hs = append(hs, cal)
+						}
+					}
+				})
+			}
 			if len(hs) == 1 {
 				got = strings.Join(m.loadSig(hs[0]), ",")
 				c.sawFn(fnName(hs[0]))
@@ -635,6 +657,9 @@ func runC01(c *Ctx) {
 	ruleSizeGuard(c, "stree")
 	for _, t := range [][2]string{{"node", "inorder"}, {"node", "inorderAfter"}, {"Tree", "Inorder"}, {"Tree", "InorderAfter"}} {
 		fn := P.Func("stree", t[0], t[1])
+		if fn == nil && t[0] == "node" {
+			continue // a private walker folded into the method that used it: the method's own body and closures are read
+		}
 		if fn == nil {
 			c.undecided("ANCHOR", "stree."+t[1], 0, "not found")
 			return
@@ -1286,16 +1311,37 @@ func (m *streeModel) ruleRelink(c *Ctx) {
 		return
 	}
 	c.sawFn(fnName(fn))
-	// the removed node: the value returned
-	var goat ssa.Value
+	// the removed node: the value returned — at each return of its own (a helper that treats "the child is
+	// itself the minimum" in an arm with its own return has two removed nodes, one per return), and the stores
+	// judged against a return are those that can be followed by it
+	var rets []*ssa.Return
 	allInstrs(fn, func(in ssa.Instruction) {
 		if ret, ok := in.(*ssa.Return); ok && len(ret.Results) == 1 {
-			goat = ret.Results[0]
+			rets = append(rets, ret)
 		}
 	})
-	if goat == nil {
+	if len(rets) == 0 {
 		c.undecided("R-RELINK", "stree.popMinRight", fn.Pos(), "no returned node")
 		return
+	}
+	for ri, ret := range rets {
+		m.relinkFor(c, fn, ret, ri, len(rets) > 1)
+	}
+}
+
+func (m *streeModel) relinkFor(c *Ctx, fn *ssa.Function, ret *ssa.Return, ri int, multi bool) {
+	goat := ret.Results[0]
+	sfx := ""
+	if multi {
+		sfx = fmt.Sprintf(" [return #%d]", ri+1)
+	}
+	reachesRet := func(in ssa.Instruction) bool {
+		for _, x := range walkFrom(in, true, nil).order {
+			if x == ssa.Instruction(ret) {
+				return true
+			}
+		}
+		return false
 	}
 	n := 0
 	for _, a := range m.childAccesses(fn) {
@@ -1308,11 +1354,11 @@ func (m *streeModel) ruleRelink(c *Ctx) {
 				st = s2
 			}
 		}
-		if a.fa.X == goat {
-			continue // detaching the removed node's own links
+		if a.fa.X == goat || st == nil || !reachesRet(st) {
+			continue // detaching the removed node's own links; or a store of another arm
 		}
 		n++
-		key := fmt.Sprintf("stree.popMinRight:%s.%s=", ksym(a.fa.X), a.fld.Name())
+		key := fmt.Sprintf("stree.popMinRight:%s.%s=", ksym(a.fa.X), a.fld.Name()) + sfx
 		base, f := loadedField(st.Val)
 		okV := f != nil && sameField(f, m.large) && base == goat
 		// … and it is the link the removed node was reached through: from the parameter, the field the walk
@@ -1363,8 +1409,11 @@ func (m *streeModel) ruleRelink(c *Ctx) {
 		if _, isAlloc := st.Addr.(*ssa.Alloc); isAlloc {
 			return // a local variable of node-pointer type, not a link of the tree
 		}
+		if !reachesRet(st) {
+			return
+		}
 		n++
-		key := fmt.Sprintf("stree.popMinRight:*%s=", ksym(st.Addr))
+		key := fmt.Sprintf("stree.popMinRight:*%s=", ksym(st.Addr)) + sfx
 		base, f := loadedField(st.Val)
 		// the removed node is what the link pointed to
 		isGoat := false
@@ -1375,7 +1424,7 @@ func (m *streeModel) ruleRelink(c *Ctx) {
 		c.judge(okV, "R-RELINK", key, st.Pos(), "the link that pointed to the removed node now points to its large-side subtree", "the link that pointed to the removed minimum is set to "+sym(st.Val)+" instead of the removed node's ."+m.large.Name()+" subtree: keys below the removed node are lost")
 	})
 	if n == 0 {
-		c.undecided("R-RELINK", "stree.popMinRight", fn.Pos(), "no relinking store found")
+		c.undecided("R-RELINK", "stree.popMinRight"+sfx, fn.Pos(), "no relinking store found")
 		return
 	}
 	// … and every way to the return re-attaches: no path leaves the removed node linked from its old place
@@ -1393,8 +1442,8 @@ func (m *streeModel) ruleRelink(c *Ctx) {
 		}
 		return true
 	}
-	reach, wit := reachesWithout(c.P, firstInstr(fn), true, func(in ssa.Instruction) bool { _, r := in.(*ssa.Return); return r }, isRelink)
-	c.judge(!reach, "R-RELINK", "stree.popMinRight:every path re-attaches", fn.Pos(), "no return without the link to the removed node having been redirected", "the helper can return ("+wit+") without redirecting the link that pointed to the removed minimum: the node stays linked from its old place as well as from its new one (a cycle once it takes the deleted node's position)")
+	reach, wit := reachesWithout(c.P, firstInstr(fn), true, func(in ssa.Instruction) bool { return in == ssa.Instruction(ret) }, isRelink)
+	c.judge(!reach, "R-RELINK", "stree.popMinRight:every path re-attaches"+sfx, fn.Pos(), "no return without the link to the removed node having been redirected", "the helper can return ("+wit+") without redirecting the link that pointed to the removed minimum: the node stays linked from its old place as well as from its new one (a cycle once it takes the deleted node's position)")
 }
 
 // ---- R-SIZE-PAIR: the element count changes by exactly one, together with a successful modification
